@@ -107,6 +107,10 @@ var resetCmd = &cobra.Command{
 		if err != nil {
 			return fmt.Errorf("fail to get log record: %w", err)
 		}
+		if len(logRecord.Hash) == 0 {
+			// e.g. the entry written for the old name of a renamed branch
+			return fmt.Errorf("fatal: '%s' does not point to a commit", args[0])
+		}
 
 		// reset HEAD
 		if isSoft || isMixed || isHard {
